@@ -39,6 +39,8 @@ fn nums_for(r: &mut Rng, tag: &str, style: u64) -> (Vec<f64>, String) {
         1 => "dyadic",
         2 => "normal",
         3 => "mixed",
+        5 => "tiny",
+        6 => "huge",
         _ => "sparse",
     };
     for _ in 0..n {
@@ -47,6 +49,8 @@ fn nums_for(r: &mut Rng, tag: &str, style: u64) -> (Vec<f64>, String) {
             1 => gen_cls(r, Cls::Dyadic),
             2 => gen_cls(r, Cls::Normal),
             3 => moderate(r).0,
+            5 => moderate(r).0 * (2.0f64).powi(-(r.range(50, 90) as i32)),
+            6 => moderate(r).0 * (2.0f64).powi(r.range(40, 80) as i32),
             _ => {
                 if r.chance(1, 2) {
                     0.0
@@ -61,7 +65,7 @@ fn nums_for(r: &mut Rng, tag: &str, style: u64) -> (Vec<f64>, String) {
 }
 
 fn piece(r: &mut Rng, tag: &str) -> Vec<f64> {
-    let st = r.below(5);
+    let st = r.below(7);
     nums_for(r, tag, st).0
 }
 
@@ -291,8 +295,10 @@ pub fn gen_case(campaign: &str, r: &mut Rng) -> Case {
             let p = piece(r, tag);
             let mut c = Case::new(op, tag).set("p", Val::L(p.clone())).cls(&format!("{op}:{tag}"));
             if op == "integral" {
-                let kx = if is_logish(tag) { pos_arg(r).0 } else { moderate(r).0 };
-                c = c.set("k", Val::L(vec![kx, moderate(r).0]));
+                let kx = if is_logish(tag) { pos_arg(r).0 } else if r.chance(1, 6) { *r.pick(&[0.0, -0.0, 1.0]) } else { moderate(r).0 };
+                let scale = p.iter().fold(0.0f64, |m, v| m.max(v.abs()));
+                let ky = if r.chance(1, 3) && scale > 0.0 { moderate(r).0 * scale } else { moderate(r).0 };
+                c = c.set("k", Val::L(vec![kx, ky]));
             }
             if op == "translate" {
                 c = c.set("v", Val::F(moderate(r).0));
@@ -370,7 +376,7 @@ pub fn gen_case(campaign: &str, r: &mut Rng) -> Case {
             let pw = pw_pieces(r, tag, n, is_logish(tag), false);
             let mut c = Case::new(op, tag).set("pw", Val::Pw(pw.clone()));
             if op != "pwindef" && op != "segindef" {
-                let kx = if is_logish(tag) { pos_arg(r).0 } else if n > 0 && r.chance(1, 2) { pw[0].0 - 0.5 } else { moderate(r).0 };
+                let kx = if is_logish(tag) { pos_arg(r).0 } else if n > 0 && r.chance(1, 2) { pw[0].0 - 0.5 } else if n > 0 && r.chance(1, 2) { pw[0].0 + 1.5 } else { moderate(r).0 };
                 c = c.set("k", Val::L(vec![kx, moderate(r).0]));
             }
             let mut c = c.cls(&format!("{op}:{tag}:n={}", n.min(3)));
@@ -411,7 +417,12 @@ pub fn gen_case(campaign: &str, r: &mut Rng) -> Case {
                 0 => r.below(3) as usize,
                 _ => 3 + r.below(12) as usize,
             };
-            let style = r.below(6);
+            let style = r.below(8);
+            let yscale = match style {
+                6 => (2.0f64).powi(-(r.range(20, 60) as i32)),
+                7 => (2.0f64).powi(r.range(20, 60) as i32),
+                _ => 1.0,
+            };
             let mut x = if style == 4 { moderate(r).0.abs() * 1e6 } else { moderate(r).0 };
             let mut y = moderate(r).0;
             let mut ks = vec![];
@@ -428,9 +439,10 @@ pub fn gen_case(campaign: &str, r: &mut Rng) -> Case {
                     2 => y + (r.unit() - 0.5),                        // oscillating
                     3 => 2.0 * x + 1.0 + if i % 3 == 0 { 1e-9 * r.unit() } else { 0.0 }, // nearly collinear
                     5 => 3.0 * x - 7.0,                               // collinear
+                    6 | 7 => if i % 4 == 3 { y - r.unit() } else { y + r.unit() }, // mostly rising, scaled below
                     _ => y + r.unit(),
                 };
-                ks.push((x, y));
+                ks.push((x, y * yscale));
             }
             let mut c = Case::new("spline", "p3").set("knots", Val::Knots(ks)).cls(&format!("style={style}:n={}", n.min(5)));
             c.nontrivial = n >= 4;
